@@ -36,9 +36,7 @@ def _c(**kw):
 # quick: graphs whose every edge is replayed.  thorough: the same + a large exhaustive model + simulated behaviours.
 GRAPHS = {
     "C14": [("0-2 speculative x 1 retry x answers in any order x timeout x late answers",
-             _c(ErrKinds={"Unavailable"}, FatalKinds={"SyntaxException"}, Decisions=D4)),
-            ("two pages (start_fetching_next_page) over 2 hosts, late answers",
-             _c(NHosts=2, OkKinds={"rows", "more"}, Decisions={"RETRY", "RETHROW"}, MaxEpoch=2))],
+             _c(ErrKinds={"Unavailable"}, Decisions=D4))],
     "C15": [("silent / late nodes, first page and next page, missing or busy pools",
              _c(OkKinds={"rows", "more"}, Decisions={"RETRY", "NEXT"}, MaxEpoch=2, Late=False,
                 PoolConds={"missing", "busy"}, MaxBad=1))],
@@ -48,6 +46,12 @@ GRAPHS = {
              _c(SpecChoices={0, 1}, TargetChoices={0, 2}, PoolConds={"missing", "shutdown", "busy", "failing"}, MaxBad=3,
                 ErrKinds={"Unavailable", "ConnectionShutdown"}, Decisions={"RETRY", "NEXT", "RETHROW"}, Late=False,
                 Timeouts=False))],
+}
+# further graphs replayed edge by edge in the thorough tier only
+MORE_GRAPHS = {
+    "C14": [("fatal error answers", _c(SpecChoices={0, 1}, FatalKinds={"SyntaxException"}, Decisions={"RETRY", "RETHROW"})),
+            ("two pages (start_fetching_next_page) over 2 hosts, late answers",
+             _c(NHosts=2, OkKinds={"rows", "more"}, Decisions={"RETRY", "RETHROW"}, MaxEpoch=2))],
 }
 BIG = {
     "C14": ("0-2 speculative x 2 retries x all answer kinds x 2 pages x a failing pool",
@@ -250,7 +254,7 @@ def run(ctx, pid):
     selftest = {}
 
     # ---- exhaustive small models; spec -> code replay of every edge
-    for label, consts in GRAPHS[pid]:
+    for label, consts in GRAPHS[pid] + ([] if ctx.quick else MORE_GRAPHS.get(pid, [])):
         res, nodes, edges, init = check_spec(ctx, pid, label, consts, graph=True)
         if res is None:
             return
